@@ -15,6 +15,7 @@ func (x *Exec) Drive(nops int, note string) []GenOp {
 	done := []GenOp{}
 	x.seq++
 	x.newWorld()
+	x.gqueue = nil
 	x.emit(LogReset{K: "reset", Seq: x.seq, Rel: x.relNames(), Cfg: x.Cfg, Note: note})
 	maxEnt := x.Cfg.MaxEnt
 	if maxEnt <= 0 {
@@ -209,6 +210,12 @@ func (x *Exec) subset(from []string, min int) []string {
 
 func (x *Exec) randomOp(maxEnt int) (GenOp, bool) {
 	comps := x.Cfg.Comps
+	if len(x.gqueue) > 0 {
+		// the rest of a scripted scenario of the coverage-guided driver (grid.go)
+		o := x.gqueue[0]
+		x.gqueue = x.gqueue[1:]
+		return o, true
+	}
 	vs := x.view()
 	mk := func(op string) GenOp {
 		return GenOp{Op: op, Add: []string{}, Rem: []string{}, Vals: FlexMap[int64]{}, Tg: FlexMap[int]{}, N: 1, Mode: "val",
@@ -278,6 +285,12 @@ func (x *Exec) randomOp(maxEnt int) (GenOp, bool) {
 		}
 	} else if x.Cfg.Queries > 0 && x.rng.Intn(12) == 0 {
 		return x.randomQOpen(vs, mk), true
+	}
+	if x.Cfg.Grid > 0 && len(x.queries) == 0 && len(vs) > 0 && len(vs) < maxEnt && x.rng.Intn(100) < x.Cfg.Grid {
+		// coverage-guided: the least-exercised (method, tuple) pair that is applicable now (grid.go)
+		if o, ok := x.gridOp(vs, mk, fill); ok {
+			return o, true
+		}
 	}
 	switch {
 	case kind < 16: // New
@@ -500,6 +513,11 @@ func (x *Exec) randomOp(maxEnt int) (GenOp, bool) {
 		o.F = id
 		o.Flt = x.randomFilter(vs, "")
 		o.Flt.Qt = FlexMap[int]{}
+		if live := x.liveRecent(); len(live) > 0 && x.rng.Intn(2) == 0 {
+			// register the filter object that recent queries / batches used unregistered (with per-call targets)
+			r := live[x.rng.Intn(len(live))]
+			o.Flt = GenFlt{With: r.With, Without: r.Without, Excl: r.Excl, Ft: r.Ft, Qt: FlexMap[int]{}}
+		}
 		return o, true
 	case kind < 99 && x.Cfg.Observers > 0 && (kind == 98 || x.rng.Intn(2) == 0):
 		// observers: register / unregister / emit a custom event
@@ -699,13 +717,8 @@ func (x *Exec) randomObserver() GenObs {
 	return o
 }
 
-func (x *Exec) randomQOpen(vs []entView, mk func(string) GenOp) GenOp {
-	o := mk("QOpen")
-	o.Q = 1
-	for x.queries[o.Q] != nil {
-		o.Q++
-	}
-	o.Flt = x.randomFilter(vs, "")
+// liveRecent lists the recently used relation filters whose fixed targets are all alive.
+func (x *Exec) liveRecent() []GenFlt {
 	live := []GenFlt{}
 	for _, r := range x.recent {
 		ok := true
@@ -718,6 +731,17 @@ func (x *Exec) randomQOpen(vs []entView, mk func(string) GenOp) GenOp {
 			live = append(live, r)
 		}
 	}
+	return live
+}
+
+func (x *Exec) randomQOpen(vs []entView, mk func(string) GenOp) GenOp {
+	o := mk("QOpen")
+	o.Q = 1
+	for x.queries[o.Q] != nil {
+		o.Q++
+	}
+	o.Flt = x.randomFilter(vs, "")
+	live := x.liveRecent()
 	if len(live) > 0 && x.rng.Intn(2) == 0 {
 		// the same filter object as a recent batch or query, with other per-query targets
 		r := live[x.rng.Intn(len(live))]
